@@ -149,7 +149,7 @@ def apply_inserts(item, body):
     # positions are resolved on the text before any insertion so that `#n` ordinals refer to the real body
     todo = []
     for (where, anchor, lines, nth, optional) in item.inserts:
-        rx = re.compile(lit_to_re(anchor), re.S)
+        rx = re.compile(anchor[4:] if anchor.startswith('\x00re:') else lit_to_re(anchor), re.S)
         ms = list(rx.finditer(body))
         if optional and not ms:
             continue
@@ -311,7 +311,8 @@ class Unit:
                         continue
                     if where == 'start':
                         r = '⟦{⟧'
-                    m = re.match(r'^⟦(.*)⟧\s*$', r.strip(), re.S)
+                    m = re.match(r'^(?:re)?⟦(.*)⟧\s*$', r.strip(), re.S)
+                    anchor_is_re = r.strip().startswith('re⟦')
                     nth = None
                     optional = where.endswith('?')
                     where = where.rstrip('?')
@@ -327,7 +328,7 @@ class Unit:
                     while not lines[i].strip().startswith('//@ endins'):
                         blk.append(lines[i])
                         i += 1
-                    item.inserts.append((where, m.group(1), blk, nth, optional))
+                    item.inserts.append((where, ('\x00re:' + m.group(1)) if anchor_is_re else m.group(1), blk, nth, optional))
                 elif word == 'body':
                     self.items.append(item)
                     self.chunks.append(('item', item, item.lineno))
